@@ -5,16 +5,12 @@ import warnings
 
 ID = 'C17'
 LEVEL = 'proof'
-CONTRACTS = ['contracts.explainer', 'contracts.batch']
+CONTRACTS = ['contracts.explainer']
 _F = {'fault_mode': True}
 _CL = ['estimates_untouched', 'inv:Eff']
 CLOSURE = [
     {'fn': 'IncrementalPFI.explain_one', 'opts': _F, 'clauses': _CL, 'safety': False, 'tag': 'faults'},
     {'fn': 'IncrementalSage.explain_one', 'opts': _F, 'clauses': _CL, 'safety': False, 'tag': 'faults'},
-    {'fn': 'BatchSage.explain_many', 'opts': _F, 'clauses': _CL, 'safety': False, 'tag': 'faults'},
-    {'fn': 'BatchSage.explain_many_original', 'opts': _F, 'clauses': _CL, 'safety': False, 'tag': 'faults'},
-    {'fn': 'BatchSage.explain_one', 'opts': _F, 'clauses': _CL, 'safety': False, 'tag': 'faults'},
-    {'fn': 'IntervalSage.explain_one', 'opts': _F, 'clauses': _CL, 'safety': False, 'tag': 'faults'},
 ]
 EXPLANATION = ("Fault mode: every callback call event (model, loss) and every interface call (imputer.impute, storage.update, "
                "storage.get_data) forks into 'returns' and 'raises'; the fault position is a symbolic choice, so all positions are "
@@ -72,7 +68,7 @@ def BOUNDED(tier, seed):
     names = ['a', 'b']
 
     def model(x):
-        if isinstance(x, list):
+        if not isinstance(x, dict):
             return [{'output': float(xi['a'] + 2 * xi['b'])} for xi in x]
         return {'output': float(x['a'] + 2 * x['b'])}
 
